@@ -612,7 +612,7 @@ package xpath
 //@   requires[@C15] q != nil
 //@   modifies nothing
 //@   ensures[nonnil@C15] result != nil
-//@   ensures[fresh-or-stateless@C04,C05,C02] isFresh(result) || result == q && (is(q, *functionQuery) || is(q, *constantQuery) || is(q, nopQuery))
+//@   ensures[fresh-or-stateless@C04,C05] isFresh(result) || result == q && (is(q, *functionQuery) || is(q, *constantQuery) || is(q, nopQuery))
 //@   ensures[same-kind@C04] sameKind(q, result)
 //@ func numericExpr
 //@   props C15 C08
